@@ -486,7 +486,7 @@ func (s *Session) sendMessage(msg storage.Message) {
 		}
 	}()
 
-	scanner := bufio.NewScanner(reader)
+	scanner := newLineScanner(reader)
 	for scanner.Scan() {
 		line := scanner.Text()
 		// Lines starting with . must be prefixed with another .
@@ -519,7 +519,7 @@ func (s *Session) sendMessageTop(msg storage.Message, lineCount int) {
 		}
 	}()
 
-	scanner := bufio.NewScanner(reader)
+	scanner := newLineScanner(reader)
 	inBody := false
 	for scanner.Scan() {
 		line := scanner.Text()
@@ -646,4 +646,41 @@ func (s *Session) reset() {
 func (s *Session) ooSeq(cmd string) {
 	s.send(fmt.Sprintf("-ERR Command %v is out of sequence", cmd))
 	s.logger.Warn().Msgf("Wasn't expecting %v here", cmd)
+}
+
+// lineScanner yields the lines of a message without limiting their length.
+type lineScanner struct {
+	r    *bufio.Reader
+	line string
+	err  error
+}
+
+func newLineScanner(r io.Reader) *lineScanner {
+	return &lineScanner{r: bufio.NewReader(r)}
+}
+
+// Scan advances to the next line, which will have its trailing CRLF or LF removed.
+func (ls *lineScanner) Scan() bool {
+	if ls.err != nil {
+		return false
+	}
+	line, err := ls.r.ReadString('\n')
+	if err != nil {
+		ls.err = err
+		if line == "" {
+			return false
+		}
+	}
+	line = strings.TrimSuffix(line, "\n")
+	ls.line = strings.TrimSuffix(line, "\r")
+	return true
+}
+
+func (ls *lineScanner) Text() string { return ls.line }
+
+func (ls *lineScanner) Err() error {
+	if ls.err == io.EOF {
+		return nil
+	}
+	return ls.err
 }
